@@ -617,13 +617,19 @@ int process_patch(const Options& options)
             tmp_out_file.write_entire_contents_to(stdout);
         } else {
             bool write_to_file = !options.dry_run;
+            const bool should_backup = options.save_backup || (!result.all_hunks_applied_perfectly && !result.was_skipped && options.backup_if_mismatch == Options::OptionalBool::Yes);
 
             // Clean up the file if it looks like it was removed.
             // NOTE: we check for file size for the degenerate case that the file is a removal, but has nothing left.
             if (options.remove_empty_files == Options::OptionalBool::Yes && patch.operation == Operation::Delete) {
                 if (tmp_out_file.size() == 0) {
-                    if (!options.dry_run)
-                        remove_file_and_empty_parent_folders(output_file);
+                    if (!options.dry_run) {
+                        // Moving the file to its backup already removes it.
+                        if (should_backup)
+                            backup.make_backup_for(output_file);
+                        if (filesystem::exists(output_file))
+                            remove_file_and_empty_parent_folders(output_file);
+                    }
                     write_to_file = false;
                 } else {
                     out << "Not deleting file " << output_file << " as content differs from patch\n";
@@ -632,7 +638,7 @@ int process_patch(const Options& options)
             }
 
             if (write_to_file) {
-                if (options.save_backup || (!result.all_hunks_applied_perfectly && !result.was_skipped && options.backup_if_mismatch == Options::OptionalBool::Yes))
+                if (should_backup)
                     backup.make_backup_for(output_file);
                 write_patched_result_to_file(patch, output_file, permission_result, mode, deferred_writer, tmp_out_file);
             }
